@@ -288,14 +288,22 @@ func BytesField(valid []byte, large int) []BytesVal {
 
 const repoPrefix = "github.com/gauss-project/aurorafs/pkg/"
 
+// the project's own manifest library (a pinned module dependency of the node)
+const manifestPrefix = "github.com/gauss-project/manifest/"
+
 // Site derives "<pkg>-<function>" of the innermost repository frame (outside
 // the harness and engine) from a stack captured while panicking.
 func Site(stack string) string {
 	for _, l := range strings.Split(stack, "\n") {
-		if !strings.HasPrefix(l, repoPrefix) {
+		var rest string
+		switch {
+		case strings.HasPrefix(l, repoPrefix):
+			rest = l[len(repoPrefix):]
+		case strings.HasPrefix(l, manifestPrefix):
+			rest = l[len(manifestPrefix):]
+		default:
 			continue
 		}
-		rest := l[len(repoPrefix):]
 		if strings.HasPrefix(rest, "zzverif/") {
 			continue
 		}
